@@ -81,9 +81,12 @@ def run_unit(root, module, prop, tier, seed, rebaseline=False):
     rec["rewrites"] = meta["rewrites"]
     rec["assumptions"] = scan_assumptions(text)
     fp = {it["item"]: it["sha256"] for it in meta["items"]}
+    fp["__loops__"] = {it["item"]: it.get("loops", 0) for it in meta["items"] if it.get("kind") == "fn"}
     rec["fingerprint"] = fp
     base = load_baseline(root).get(module, {})
-    changed = sorted(k for k in set(fp) | set(base) if fp.get(k) != base.get(k))
+    changed = sorted(k for k in set(fp) | set(base) if k != "__loops__" and fp.get(k) != base.get(k))
+    bl = base.get("__loops__", {})
+    rec["skeleton_changed"] = sorted(k for k, v in fp["__loops__"].items() if k in bl and bl[k] != v)
     rec["changed_items"] = changed if base else ["<no baseline recorded>"]
     rec["baseline_present"] = bool(base)
 
@@ -163,6 +166,18 @@ def classify_unit(rec, r, meta, base, changed, text):
         rec["status"] = "undecided"
         rec["reason"] = "obligation failed although every extracted item is byte-identical to the validated baseline: solver instability, not the code"
         return
+    # proof-skeleton guard: loop invariants are keyed by loop ordinal; if a function's number of loops differs from the
+    # validated baseline, its invariants no longer describe its loops and a failed proof says nothing about the property.
+    sk = set(rec.get("skeleton_changed", []))
+    if sk:
+        keep = [x for x in failed if x.get("where") not in sk]
+        dropped = [x for x in failed if x.get("where") in sk]
+        if dropped and not keep:
+            rec["status"] = "undecided"
+            rec["reason"] = ("loop structure of " + ", ".join(sorted(sk)) + " differs from the validated baseline: the loop invariants no longer apply "
+                             "(new invariants needed); failed obligations there are not reported as violations")
+            return
+        rec["failed"] = keep
     rec["status"] = "failed"
 
 
